@@ -569,6 +569,27 @@ def run(ctx):
                 if not HS.admissible(name, p, {}, st):
                     continue
                 cases.append({"part": "e1", "hasher": name, "settings": st, "si": si, "label": label, "password": p})
+    # cost arm: the digest-mixing loops are periodic in the cost (sha-crypt: 42 rounds per block + an odd/even tail;
+    # sha1-crypt, md5-crypt based formats: no period) -- every residue of one period above the minimum, one text
+    # and one non-UTF-8 password (the latter takes the fallback path under os_crypt)
+    for name in all_backend_hashers():
+        H = HS.handler(name)
+        if not H or "rounds" not in HS.g(name, "setting_kwds", ()) or HS.base_name(name) in ("bcrypt", "bcrypt_sha256", "scrypt"):
+            continue
+        lo = HS.g(name, "min_rounds") or 1
+        span = 86 if HS.base_name(name) in ("sha256_crypt", "sha512_crypt") else 8
+        wrapper = HS.base_name(name) != name
+        for r in range(lo, lo + span):
+            if HS.g(name, "rounds_cost") == "log2" or (HS.base_name(name) == "bsdi_crypt" and r % 2 == 0):
+                continue
+            if wrapper and ctx.quick and (r - lo) % 7:
+                continue
+            st = {"rounds": r}
+            if "salt" in HS.g(name, "setting_kwds", ()) and HS.salt_alphabet(name) is not None:
+                st["salt"] = HS.make_salt(name, HS.g(name, "default_salt_size") or HS.g(name, "max_salt_size") or 2, ctx.seed, 2)
+            for label, p in (("cost_arm:text", "password"), ("cost_arm:nonutf8", b"\xff\xfe not utf-8 \x80")):
+                if HS.admissible(name, p, {}, st):
+                    cases.append({"part": "e1", "hasher": name, "settings": st, "si": 1000 + r - lo, "label": label, "password": p})
     for i in range(0, len(cases), 6):
         tasks.append({"part": "e1", "cases": cases[i : i + 6]})
     depth = 3 if ctx.quick else 4
